@@ -1593,3 +1593,16 @@ package apd
 //@   loop 1 decreases integ.Exponent - i
 //@   ensures [ok] ret1 == nil <==> (d.Form == Finite && isinteger(d) && signed(d.Negative, intmag(d)) >= -9223372036854775808 && signed(d.Negative, intmag(d)) <= 9223372036854775807)
 //@   ensures [value] ret1 == nil ==> ret0 == signed(d.Negative, intmag(d))
+
+// ---------------------------------------------------------------- C20: mode consistency as lemmas over the oracle (no code)
+
+//@ lemma {C20} rnd_bracket(m: rounder, neg: bool, C: int, sh: int): C >= 0 && sh >= 0 ==> RQ(C, sh) <= RND(m, neg, C, sh) && RND(m, neg, C, sh) <= RQ(C, sh) + 1
+//@ lemma {C20} rnd_exact(m: rounder, neg: bool, C: int, sh: int): C >= 0 && sh >= 0 && RR(C, sh) == 0 ==> RND(m, neg, C, sh) == RQ(C, sh)
+//@ lemma {C20} rnd_down_up(neg: bool, C: int, sh: int): C >= 0 && sh >= 0 ==> RND(RoundDown, neg, C, sh) == RQ(C, sh) && (RR(C, sh) != 0 ==> RND(RoundUp, neg, C, sh) == RQ(C, sh) + 1)
+//@ lemma {C20} rnd_floor_ceiling(m: rounder, neg: bool, C: int, sh: int): C >= 0 && sh >= 0 ==> signed(neg, RND(RoundFloor, neg, C, sh)) <= signed(neg, RND(m, neg, C, sh)) && signed(neg, RND(m, neg, C, sh)) <= signed(neg, RND(RoundCeiling, neg, C, sh)) && signed(neg, RND(RoundCeiling, neg, C, sh)) - signed(neg, RND(RoundFloor, neg, C, sh)) == ite(RR(C, sh) != 0, 1, 0)
+//@ lemma {C20} rnd_mirror(neg: bool, C: int, sh: int): C >= 0 && sh >= 0 ==> RND(RoundFloor, neg, C, sh) == RND(RoundCeiling, !neg, C, sh) && RND(RoundHalfEven, neg, C, sh) == RND(RoundHalfEven, !neg, C, sh) && RND(RoundHalfUp, neg, C, sh) == RND(RoundHalfUp, !neg, C, sh) && RND(RoundUp, neg, C, sh) == RND(RoundUp, !neg, C, sh)
+//@ lemma {C20} rnd_half_nearest(neg: bool, C: int, sh: int): C >= 0 && sh >= 0 ==> (2 * RR(C, sh) < pow10(sh) ==> RND(RoundHalfUp, neg, C, sh) == RQ(C, sh) && RND(RoundHalfEven, neg, C, sh) == RQ(C, sh) && RND(RoundHalfDown, neg, C, sh) == RQ(C, sh)) && (2 * RR(C, sh) > pow10(sh) ==> RND(RoundHalfUp, neg, C, sh) == RQ(C, sh) + 1 && RND(RoundHalfEven, neg, C, sh) == RQ(C, sh) + 1 && RND(RoundHalfDown, neg, C, sh) == RQ(C, sh) + 1)
+//@ lemma {C20} rnd_magnitude(m: rounder, neg: bool, C: int, sh: int): C >= 0 && sh >= 0 ==> RND(RoundDown, neg, C, sh) <= RND(m, neg, C, sh) && RND(m, neg, C, sh) <= RND(RoundUp, neg, C, sh) || RR(C, sh) == 0
+//@ lemma {C20} rnd_value_bracket(m: rounder, neg: bool, C: int, sh: int): C >= 0 && sh >= 0 ==> RQ(C, sh) * pow10(sh) <= C && C < (RQ(C, sh) + 1) * pow10(sh)
+//@ lemma {C20} add_commutes(c: *Context, x: *Decimal, y: *Decimal): addS(x, y, y.Negative) == addS(y, x, x.Negative) && addNeg(c, x, y.Negative, addS(x, y, y.Negative)) == addNeg(c, y, x.Negative, addS(y, x, x.Negative)) && min(x.Exponent, y.Exponent) == min(y.Exponent, x.Exponent)
+//@ lemma {C20} rndq_bracket(m: rounder, neg: bool, N: int, D: int): N >= 0 && D > 0 ==> div(N, D) <= RNDQ(m, neg, N, D) && RNDQ(m, neg, N, D) <= div(N, D) + 1 && (mod(N, D) == 0 ==> RNDQ(m, neg, N, D) == div(N, D))
